@@ -241,3 +241,249 @@ func ruleEqualsShape(c *Ctx) {
 	}
 	c.mustContainCalls("C18.h", "resources.EqualsOrEmpty", "resources.Equals")
 }
+
+func init() {
+	registerExtra("C04", ruleAsksBeforeReleases)
+	registerExtra("C04", ruleNoLoopCarriedDecision)
+	registerExtra("C13", ruleNoLoopCarriedDecision)
+	registerExtra("C05", ruleUsageGuardsAgree)
+	registerExtra("C05", ruleWildcardClearFlag)
+	registerExtra("C06", rulePlaceholderReleaseOnce)
+	registerExtra("C07", rulePerApplicationAnnouncement)
+	registerExtra("C07", ruleOffsetOrientation)
+}
+
+// ruleAsksBeforeReleases: one allocation request is applied as "new/updated allocations first,
+// releases second" so that an ask submitted and cancelled in the same request ends up cancelled.
+func ruleAsksBeforeReleases(c *Ctx) {
+	p := c.p
+	c.Rule("C04.f", "handleRMUpdateAllocationEvent applies the allocations of a request before its releases (a key that is submitted and released in one request must end up released, not outstanding)")
+	fn := c.MustFunc("C04.f", "scheduler.ClusterContext.handleRMUpdateAllocationEvent")
+	if fn == nil {
+		return
+	}
+	a := p.callsIn(fn, "scheduler.ClusterContext.processAllocations")
+	r := p.callsIn(fn, "scheduler.ClusterContext.processAllocationReleases")
+	ok := len(a) == 1 && len(r) == 1 && a[0].Pos() < r[0].Pos()
+	c.Check("C04.f", "allocations processed before releases", fn.Decl, ok, "processAllocationReleases runs before processAllocations (or one of them is gone): an ask submitted and released in the same request stays registered and is later announced as a new allocation")
+}
+
+// ruleNoLoopCarriedDecision: in the per-item loops of the SI handlers, a boolean that decides how
+// the current item is handled must be (re)initialised for every item.
+func ruleNoLoopCarriedDecision(c *Ctx) {
+	p := c.p
+	rule := c.Prop + ".loop"
+	c.Rule(rule, "in the per-item loops of the SI request handlers every boolean decision variable that is set inside the loop is declared inside the loop body (or assigned unconditionally at its top): a flag set for one item must not carry over to the next item of the same request")
+	n := 0
+	for _, name := range []string{"scheduler.ClusterContext.processNodes", "scheduler.ClusterContext.processAllocations", "scheduler.ClusterContext.processAllocationReleases",
+		"scheduler.ClusterContext.handleRMUpdateApplicationEvent", "scheduler.ClusterContext.updateNode"} {
+		fn := p.Funcs[name]
+		if fn == nil || fn.Decl.Body == nil {
+			continue
+		}
+		ast.Inspect(fn.Decl.Body, func(nd ast.Node) bool {
+			loop, ok := nd.(*ast.RangeStmt)
+			if !ok {
+				return true
+			}
+			ast.Inspect(loop.Body, func(m ast.Node) bool {
+				as, ok := m.(*ast.AssignStmt)
+				if !ok || as.Tok != token.ASSIGN {
+					return true
+				}
+				for _, l := range as.Lhs {
+					id, ok := unparen(l).(*ast.Ident)
+					if !ok {
+						continue
+					}
+					o := p.ObjOf(id)
+					if o == nil || o.Type().String() != "bool" {
+						continue
+					}
+					if o.Pos() > loop.Body.Pos() && o.Pos() < loop.Body.End() {
+						continue // declared per iteration
+					}
+					n++
+					// declared outside: acceptable only if some assignment is a top-level statement of the loop body (unconditional reset)
+					reset := false
+					for _, s := range loop.Body.List {
+						if ts, ok := s.(*ast.AssignStmt); ok {
+							for _, tl := range ts.Lhs {
+								if tid, ok := unparen(tl).(*ast.Ident); ok && p.ObjOf(tid) == o {
+									reset = true
+								}
+							}
+						}
+					}
+					c.Check(rule, "decision flag "+id.Name+" in "+shortFn(name), as, reset, "the flag %s is declared outside the per-item loop and only set conditionally inside it: once set for one item it stays set for all later items of the same request", id.Name)
+				}
+				return true
+			})
+			return true
+		})
+	}
+	c.Check(rule, "per-item loops scanned", nil, true, "")
+}
+
+// ruleUsageGuardsAgree: the parameter guards of the two usage entry points reject the same inputs.
+func ruleUsageGuardsAgree(c *Ctx) {
+	p := c.p
+	c.Rule("C05.f", "Manager.IncreaseTrackedResource and DecreaseTrackedResource refuse exactly the same inputs (empty queue path, empty application id, nil usage, empty user): a usage delta accepted by one and dropped by the other makes tracked usage drift from the allocations")
+	want := []string{"applicationID == common.Empty", "queuePath == common.Empty", "usage == nil", "user.User == common.Empty"}
+	var got [][]string
+	for _, name := range []string{"ugm.Manager.IncreaseTrackedResource", "ugm.Manager.DecreaseTrackedResource"} {
+		fn := c.MustFunc("C05.f", name)
+		if fn == nil {
+			continue
+		}
+		var guard *ast.IfStmt
+		for _, s := range fn.Decl.Body.List {
+			if ifs, ok := s.(*ast.IfStmt); ok && guard == nil && len(ifs.Body.List) > 0 {
+				if _, isRet := ifs.Body.List[len(ifs.Body.List)-1].(*ast.ReturnStmt); isRet {
+					guard = ifs
+				}
+			}
+		}
+		if guard == nil {
+			c.Check("C05.f", "parameter guard of "+shortFn(name), fn.Decl, false, "no early-return parameter guard found")
+			continue
+		}
+		var parts []string
+		var walk func(e ast.Expr)
+		walk = func(e ast.Expr) {
+			if b, ok := unparen(e).(*ast.BinaryExpr); ok && b.Op == token.LOR {
+				walk(b.X)
+				walk(b.Y)
+				return
+			}
+			parts = append(parts, p.Src(e))
+		}
+		walk(guard.Cond)
+		sortStrings(parts)
+		got = append(got, parts)
+		c.Check("C05.f", "inputs refused by "+shortFn(name), guard, strings.Join(parts, " || ") == strings.Join(want, " || "), "the guard refuses %v, expected exactly %v", parts, want)
+	}
+	if len(got) == 2 {
+		c.Check("C05.f", "increase and decrease refuse the same inputs", nil, strings.Join(got[0], "|") == strings.Join(got[1], "|"), "increase: %v vs decrease: %v", got[0], got[1])
+	}
+}
+
+func sortStrings(s []string) {
+	for i := 1; i < len(s); i++ {
+		for j := i; j > 0 && s[j] < s[j-1]; j-- {
+			s[j], s[j-1] = s[j-1], s[j]
+		}
+	}
+}
+
+// ruleWildcardClearFlag: the wildcard clean-up may only clear wildcard-derived limits.
+func ruleWildcardClearFlag(c *Ctx) {
+	p := c.p
+	c.Rule("C05.g", "when a wildcard user limit disappears only limits that were DERIVED from the wildcard are cleared (clearLimits(path, true)); the clean-up of a removed named limit clears unconditionally (clearLimits(path, false)): the two callers must not exchange the flag, otherwise a named limit set in the same reload is wiped")
+	for fnName, want := range map[string]bool{"ugm.Manager.clearEarlierSetUserWildCardLimits": true, "ugm.Manager.resetUserEarlierUsage": false} {
+		fn := c.MustFunc("C05.g", fnName)
+		if fn == nil {
+			continue
+		}
+		calls := p.callsIn(fn, "ugm.UserTracker.clearLimits")
+		for _, call := range calls {
+			ok := len(call.Args) == 2 && p.isConstBool(call.Args[1], want)
+			c.Check("C05.g", "wildcard-only flag in "+shortFn(fnName), call, ok, "clearLimits is called with doWildCardCheck=%s, expected %v", p.Src(call.Args[1]), want)
+		}
+		c.Floor("C05.g", "clearLimits calls in "+shortFn(fnName), len(calls), 1)
+	}
+}
+
+// rulePlaceholderReleaseOnce: a placeholder that is already marked released (its swap is in flight)
+// is not released a second time by the timeout paths.
+func rulePlaceholderReleaseOnce(c *Ctx) {
+	p := c.p
+	c.Rule("C06.h", "the timeout paths that walk the application's allocated placeholders (getPlaceholderAllocations) call SetReleased(true) only for a placeholder that is not released yet: one whose swap is in flight is skipped, never announced again as TIMEOUT")
+	n := 0
+	for _, fn := range p.funcs {
+		if fn.Decl.Body == nil || !p.methodOf(fn, "objects.Application") {
+			continue
+		}
+		for _, call := range p.callsIn(fn, "objects.Allocation.SetReleased") {
+			if len(call.Args) != 1 || !p.isConstBool(call.Args[0], true) || Recv(call) == nil {
+				continue
+			}
+			st := p.StateAt(fn, call)
+			src, _, isRange := p.RangeSource(T(Recv(call), st))
+			if !isRange || !strings.Contains(p.Src(src.E), "getPlaceholderAllocations()") {
+				continue
+			}
+			n++
+			notYet := p.Holds(st, p.CallAtom(false, p.recvIs(T(Recv(call), st)), "objects.Allocation.IsReleased"))
+			c.Check("C06.h", "placeholder released once in "+fn.Name, call, notYet, "SetReleased(true) on a placeholder without the fact !IsReleased(): a placeholder whose replacement is in flight is released to the shim a second time (as TIMEOUT) and its real allocation is lost")
+		}
+	}
+	c.Floor("C06.h", "SetReleased(true) on placeholders taken from getPlaceholderAllocations()", n, 2)
+}
+
+// rulePerApplicationAnnouncement: a release list announced inside a loop is built inside that loop.
+func rulePerApplicationAnnouncement(c *Ctx) {
+	p := c.p
+	c.Rule("C07.h", "a victim list that is announced inside a loop (one announcement per application) is declared inside that loop: every announcement names only the victims of its own iteration, so no victim is announced twice or through another application")
+	n := 0
+	for _, fn := range p.funcs {
+		if fn.Decl.Body == nil || !p.InPkg(fn, "objects") {
+			continue
+		}
+		for _, call := range p.callsIn(fn, "objects.Application.notifyRMAllocationReleased") {
+			loop := p.enclosingLoop(call)
+			if loop == nil || len(call.Args) < 1 {
+				continue
+			}
+			id, ok := unparen(call.Args[0]).(*ast.Ident)
+			if !ok {
+				continue
+			}
+			o := p.ObjOf(id)
+			if o == nil {
+				continue
+			}
+			n++
+			inside := o.Pos() > loop.Pos() && o.Pos() < loop.End()
+			c.Check("C07.h", "announced list "+id.Name+" in "+fn.Name+" is per iteration", call, inside, "the list %s announced inside the loop is declared outside it and keeps the victims of earlier iterations: they are announced again with every later application", id.Name)
+		}
+	}
+	c.Floor("C07.h", "announcements inside loops", n, 1)
+}
+
+// ruleOffsetOrientation: queue priority offsets are added on the way up from the asking queue.
+func ruleOffsetOrientation(c *Ctx) {
+	p := c.p
+	c.Rule("C07.i", "findPreemptionFenceRoot accumulates the ask's relative priority on the upward walk as `current += offset` (default policy) or `current = offset` (fence policy): the sign agrees with the downward walk of findEligiblePreemptionVictims, which subtracts the child's offset from the ask priority")
+	fn := c.MustFunc("C07.i", "objects.Queue.findPreemptionFenceRoot")
+	if fn == nil {
+		return
+	}
+	cur := paramObj(p, fn, 1)
+	n := 0
+	ast.Inspect(fn.Decl.Body, func(nd ast.Node) bool {
+		as, ok := nd.(*ast.AssignStmt)
+		if !ok || len(as.Lhs) != 1 {
+			return true
+		}
+		id, ok := unparen(as.Lhs[0]).(*ast.Ident)
+		if !ok || p.ObjOf(id) != cur {
+			return true
+		}
+		n++
+		okOp := as.Tok == token.ADD_ASSIGN || as.Tok == token.ASSIGN
+		c.Check("C07.i", "offset applied upwards with a plus", as, okOp && strings.Contains(p.Src(as.Rhs[0]), "offset"), "the ask's relative priority is updated with `%s %s %s`: a subtracted offset raises the ask's rank instead of lowering it, so allocations that outrank the ask become victims", p.Src(as.Lhs[0]), as.Tok, p.Src(as.Rhs[0]))
+		return true
+	})
+	c.Floor("C07.i", "priority updates in findPreemptionFenceRoot", n, 2)
+	if fn2 := c.MustFunc("C07.i", "objects.Queue.findEligiblePreemptionVictims"); fn2 != nil {
+		minus := false
+		ast.Inspect(fn2.Decl.Body, func(nd ast.Node) bool {
+			if be, ok := nd.(*ast.BinaryExpr); ok && be.Op == token.SUB && strings.Contains(p.Src(be.X), "askPriority") && strings.Contains(strings.ToLower(p.Src(be.Y)), "offset") {
+				minus = true
+			}
+			return true
+		})
+		c.Check("C07.i", "offset applied downwards with a minus", fn2.Decl, minus, "findEligiblePreemptionVictims no longer computes askPriority - offset for an unfenced child")
+	}
+}
